@@ -78,9 +78,11 @@ class CollectorRegistry(Collector):
             'info': ['_info'],
         }
         for metric in desc_func():
-            result.append(metric.name)
-            for suffix in type_suffixes.get(metric.type, []):
-                result.append(metric.name + suffix)
+            for suffix in [''] + type_suffixes.get(metric.type, []):
+                # A name may be claimed by several families of one collector;
+                # record it once so that unregister() can release it.
+                if metric.name + suffix not in result:
+                    result.append(metric.name + suffix)
         return result
 
     def collect(self) -> Iterable[Metric]:
